@@ -7,6 +7,10 @@ NOTE = ("Trusted base: the gosmt executor's Go semantics (engine/*.go), z3 4.8.1
         "bounds are those of the harnesses (see DESIGN.md section of the property); inputs beyond them are outside the claim.")
 # id -> (claimed?, level text, design_ref, extra note / N/A reason)
 CHECKS = {
+ "C08": ("Reply size fields for all file sizes < 2^32 and all resume offsets 0<=k<=size (plain, resumed, preview); the real DownloadHandler stream = consistent header, then exactly data[k:], then (unless resuming) an empty resource section, for all contents up to the bound.", "3/C08", "File store and *os.File reads are harness stubs; data up to 600 bytes quick / 9000 thorough (covers bufio refills); name fixed; stored info/resource forks outside this revision's claim."),
+ "C09": ("One upload attempt of the real UploadHandler from an arbitrary state of the target name with the connection dying at a symbolic offset of the stream: final name appears iff everything arrived, partial file = old prefix + bytes received, existing file never touched; resume offset reported = partial length for all sizes.", "3/C09", "os calls replaced by an in-harness namespace model (O_APPEND write = append, rename atomic); quick tier: cut at every data offset and one offset inside each header part, thorough: any offset."),
+ "C10": ("Real DownloadFolderHandler / UploadFolderHandler over a scripted client with symbolic choices (send/resume k/skip; file absent/partial/complete; connection cut): item headers, size prefixes and bytes compared with the reference; announced count = headers sent; dot-files never sent.", "3/C10", "filepath.Walk replaced by a lexical walk over a fixed small tree (1 file, 1 dot-file, 1 sub-folder); one file item per upload; deeper trees outside the claim."),
+ "C11": ("fileWrapper.Move/Delete from every combination of existing side files carry all four files and touch nothing else; get-info and download reply agree with the disk size for all sizes < 2^32; create-folder never replaces an existing entry (C05 harness).", "3/C11", "Directory listing (os.ReadDir, ignore patterns, name encoding round trip) is not covered in this revision."),
  "C07": ("The real filepath/path Clean and Join code is executed symbolically on arbitrary client bytes (every byte value, every length up to the bound) through ReadPath, create-folder, rename, move/delete/alias, folder-upload item paths and the account manager; every path handed to a filesystem sink must lie inside the root.", "3/C07", "Bounds: path items and names up to 3 bytes each (quick) / 5 (thorough), up to two items; Mac-Roman decode modelled as identity (it cannot create or remove '/', '.' or NUL); symlinks already inside the root are outside the claim."),
  "C04": ("Path conditions of the real handleNewConnection over symbolic handshake bytes, login/password fields, account table and transaction ID: served iff handshake valid and credentials match; otherwise nothing executed, nothing queued to anyone, at most handshake reply + one error reply carrying the login's ID; registry restored.", "3/C04", "Account table, ban list, agreement and connection are harness stubs; bcrypt by contract; login/password fields up to 2 bytes each (all lengths), one appended request."),
  "C05": ("For every registered handler group the real handler runs with a fully symbolic 64-bit bitmap: effect => governing privilege, denial => privilege absent, denial is the only outcome with no side effect, entitled requests are carried out; at most one reply, to the requester.", "3/C05 + Appendix A", "Managers, file store, news store and message board are recording stubs; target kind (file/folder, category/bundle, exists/missing) symbolic; names from a finite menu."),
